@@ -3,6 +3,7 @@ package main
 // Encoding context: declarations, assertions, obligations, symbolic state, memory model.
 
 import (
+	"sync"
 	"fmt"
 	"go/token"
 	"go/types"
@@ -104,6 +105,7 @@ type Enc struct {
 	declared  map[string]bool
 	items     []item
 	obls      []*Obl
+	scriptMu  sync.Mutex
 	mute      int // >0: obligations are neither recorded nor assumed (see oblige)
 	n         int
 	heapSort  map[string]string
@@ -535,6 +537,10 @@ func (e *Enc) strLit(s string) string {
 // ---------- output ----------
 
 func (e *Enc) script(o *Obl) string {
+	// obligations of one function are solved concurrently and share this encoding context (the ancestor cache is
+	// filled lazily): one script at a time per context
+	e.scriptMu.Lock()
+	defer e.scriptMu.Unlock()
 	var b strings.Builder
 	b.WriteString(prelude)
 	body := strings.Builder{}
